@@ -118,6 +118,19 @@ func prepare(api calls.API, c Case, bufs []*calls.Buf) (map[int]*sharedPatch, er
 	return shared, nil
 }
 
+// sharedOpts builds the ApplyOptions values that all goroutines share (one per option set).
+func sharedOpts(c Case) *calls.OptsCache {
+	oc := calls.NewOptsCache()
+	for _, th := range c.Threads {
+		for _, st := range th {
+			if !st.Private {
+				oc.Prepare(st.Call)
+			}
+		}
+	}
+	return oc
+}
+
 func sequential(api calls.API, c Case, bufs []*calls.Buf, shared map[int]*sharedPatch) (map[string]calls.Result, error) {
 	want := map[string]calls.Result{}
 	for _, th := range c.Threads {
@@ -131,7 +144,7 @@ func sequential(api calls.API, c Case, bufs []*calls.Buf, shared map[int]*shared
 			if st.NeedsPatch() {
 				p, perr = shared[st.B].p, shared[st.B].err
 			}
-			r := calls.Exec(api, st.Call, bufs[st.A].B, bufs[st.B].B, p, perr)
+			r := calls.Exec(api, st.Call, bufs[st.A].B, bufs[st.B].B, p, perr, nil)
 			if r.Panic != "" {
 				return nil, fmt.Errorf("%s panicked when run alone: %s", st.Fn, r.Panic)
 			}
@@ -144,6 +157,7 @@ func sequential(api calls.API, c Case, bufs []*calls.Buf, shared map[int]*shared
 
 // concurrent runs the goroutines and returns the first mismatch per goroutine.
 func concurrent(api calls.API, c Case, bufs []*calls.Buf, shared map[int]*sharedPatch, want map[string]calls.Result) []string {
+	oc := sharedOpts(c)
 	old := runtime.GOMAXPROCS(c.Procs)
 	defer runtime.GOMAXPROCS(old)
 	errs := make([]string, len(c.Threads))
@@ -172,7 +186,9 @@ func concurrent(api calls.API, c Case, bufs []*calls.Buf, shared map[int]*shared
 					var a, b []byte
 					var p any
 					var perr error
+					use := oc
 					if st.Private {
+						use = nil
 						a, b = pbuf(st.A), pbuf(st.B)
 						if st.NeedsPatch() {
 							sp, ok := privPatch[st.B]
@@ -192,7 +208,7 @@ func concurrent(api calls.API, c Case, bufs []*calls.Buf, shared map[int]*shared
 							p, perr = shared[st.B].p, shared[st.B].err
 						}
 					}
-					got := calls.Exec(api, st.Call, a, b, p, perr)
+					got := calls.Exec(api, st.Call, a, b, p, perr, use)
 					if exp := want[st.Sig(c.Bufs)]; !calls.Same(exp, got, st.ByValue()) {
 						errs[g] = fmt.Sprintf("goroutine %d round %d step %d (%s, private=%v): concurrent result differs from the result of the same call run alone\n concurrent: %s\n alone: %s", g, r, i, st.Fn, st.Private, got, exp)
 						return
@@ -209,6 +225,9 @@ func concurrent(api calls.API, c Case, bufs []*calls.Buf, shared map[int]*shared
 	}
 	close(start)
 	wg.Wait()
+	if err := oc.Intact(); err != nil {
+		errs[0] = "after the workload: " + err.Error()
+	}
 	return errs
 }
 
